@@ -139,6 +139,8 @@ theorem imp_gen_struct (cfg : Cfg) (d : Dictionary) (o : Options) (out : Output)
   · cases h
   split at h
   · cases h
+  split at h
+  · cases h
   cases h
   refine ⟨seen, r, _, _, _, hca, hcv, ?_, rfl, rfl⟩
   intro s hs
